@@ -84,4 +84,15 @@ FIXED_BY_SUBJECT = {
    ('C17', 'CER of a long bit string given as Python value with a tagged asn1Spec differed from the value object encoding')],
  "fix: CER/DER SET with a SET OF/SEQUENCE OF open-type member lost the ANY tags": [
    ('C18', 'CER/DER SET { ... blob SET OF [n] ANY DEFINED BY ... } wrote the typed elements without the ANY tag')],
+ "fix: iterating a CHOICE with no alternative chosen raised RuntimeError": [
+   ('C19', 'list()/for over an empty CHOICE raised RuntimeError (StopIteration inside a generator)')],
+ "fix: SequenceOf/SetOf.reverse() raised AttributeError": [
+   ('C19', 'reverse() raised AttributeError')],
+ "fix: clone(cloneValueFlag=True) of schema and of empty constructed objects": [
+   ('C19', 'deep clone of a schema SEQUENCE OF raised PyAsn1Error; deep clone of an empty value was a schema object'),
+   ('C04', 'clone(cloneValueFlag=True) raised after a read had left a valueless OPTIONAL SEQUENCE OF placeholder')],
+ "fix: SEQUENCE/SET/CHOICE objects after reset()": [
+   ('C19', 'len()/prettyPrint() of a reset SEQUENCE/SET raised; a reset CHOICE kept its alternative index')],
+ "fix: slice assignment on SEQUENCE OF/SET OF follows list semantics": [
+   ('C19', 'slice assignment with a replacement of different length overwrote following members; s[i:i]=... leaked IndexError')],
 }
